@@ -101,7 +101,7 @@ def run(ctx):
                 S.fail(c, ("nan",), "formats", d)
         return outs
 
-    n_rand = 12000 if thorough else 900
+    n_rand = 12000 if thorough else 700
     for i in range(n_rand):
         c = ca.gen_case(rng)
         outs = one(c, "random")
